@@ -123,7 +123,7 @@ def names(r):
     """Return the available names as a set in the Record otherwise ['UnknownRecord']."""
     if isinstance(r, WrappedRecord):
         # (the compiled selector hands out wrapped records: a grouped record has to be recognised through the wrapper)
-        r = r.record
+        r = r._WrappedRecord__record
     if isinstance(r, GroupedRecord):
         return set(sub_record._desc.name for sub_record in r.records)
     if isinstance(r, (Record, WrappedRecord)):
@@ -352,19 +352,20 @@ class Selector:
 class WrappedRecord:
     """WrappedRecord wraps a Record but will return a NoneObject for non existing attributes."""
 
-    __slots__ = ("record",)
+    # (a private name: it cannot hide a field of the record, or the absence of one, the way a plain `record` attribute would)
+    __slots__ = ("__record",)
 
     def __init__(self, record):
-        self.record = record
+        self.__record = record
 
     def __getattr__(self, k):
-        return getattr(self.record, k, NONE_OBJECT)
+        return getattr(self.__record, k, NONE_OBJECT)
 
     def __str__(self) -> str:
-        return str(self.record)
+        return str(self.__record)
 
     def __repr__(self) -> str:
-        return repr(self.record)
+        return repr(self.__record)
 
 
 class MembershipTransformer(ast.NodeTransformer):
